@@ -1,12 +1,11 @@
 CONSTANTS
-  RFiles <- MFiles
+  RFiles <- MListedNoSelf
   RTok <- MTok
   REnc = {"secret"}
   RSig = {"(signature)"}
   REmpty = {"empty"}
   RHetBet = FALSE
-  RUnlisted = {}
-SPECIFICATION CodeSpec
+  RUnlisted <- MUnlisted
+SPECIFICATION HeadSpec
 INVARIANT NeverFails
-
 CHECK_DEADLOCK FALSE
